@@ -71,8 +71,9 @@ type Ent struct {
 
 // File is the open-file object returned by Open / Create.
 type File struct {
-	ent    *Ent
-	inCall int
+	ent     *Ent
+	inCall  int
+	refused bool // returned together with an error: any use is a misuse
 }
 
 // DefaultTree: / { a/ { b (file) , d/ {} }, c (file) }
@@ -255,7 +256,9 @@ func (e *Ent) Open(ctx context.Context, mode p9p.Flag) (p9p.File, error) {
 	out := e.fs.begin("Open", e, fmt.Sprintf("(%d)", mode))
 	defer e.fs.end(e)
 	if out != OK {
-		return nil, errInjected
+		// a failing call may hand back a non-nil value with its error (Go
+		// APIs do): it must be ignored
+		return &File{ent: e, refused: true}, errInjected
 	}
 	e.Opened = true
 	e.file = &File{ent: e}
@@ -347,6 +350,9 @@ func (e *Ent) WStat(ctx context.Context, d p9p.Dir) error {
 }
 
 func (f *File) enter(call string) int {
+	if f.refused {
+		f.ent.fs.problem("%s called on the file object that a failed Open returned together with its error", call)
+	}
 	fs := f.ent.fs
 	e := f.ent
 	n := fs.ncalls
